@@ -1,0 +1,11 @@
+//go:build verif
+
+package codec
+
+// C02ReadPayload exposes Decoder.readPayload (frame + compression envelope, no packet decoding)
+// to the verification harness.
+func (d *Decoder) C02ReadPayload() (payload []byte, n int, err error) {
+	d.mu.Lock()
+	defer d.mu.Unlock()
+	return d.readPayload()
+}
